@@ -13,6 +13,7 @@ import (
 	"time"
 
 	"github.com/emitter-io/emitter/internal/message"
+	"github.com/emitter-io/emitter/internal/network/mqtt"
 	"github.com/emitter-io/emitter/internal/provider/storage"
 	"github.com/emitter-io/emitter/internal/security"
 	"github.com/emitter-io/emitter/internal/security/hash"
@@ -106,7 +107,7 @@ var edgeLevels = func() []string {
 	return []string{ff, zz}
 }()
 
-const replyCap = 65536
+var replyCap = mqtt.MaxMessageSize // the reply-size cap is the code's own constant (the statement names no number)
 
 func TestC06(t *testing.T) {
 	rec := vk.New("C06", "query")
